@@ -11,6 +11,9 @@ T5  bit layouts: MouseEventMatcher::decode (bit provenance + complete enumeratio
 T6  self-delimitation: accepting states of the tagged union of the as-built event grammars that can be extended belong to the key table only
 T7  field order: the n-th number of the payload reaches the documented field (MIR: order of Iterator::next calls feeding each aggregate
     field), the four report grammars equal their documented forms and the payload slice starts/ends at the numbers
+T8  `rgb:` colour components of OSC colour reports (parse_color evaluated)
+T9  free text carried by an event (kitty image response message, bracketed paste) = the WHOLE span between the fixed delimiters: decode evaluated
+    (sa.consteval) on grammar-accepted sequences whose text holds every admissible ASCII byte and each separator byte (; , = :) 0, 1, 2, 3 times
 
 Everything is read from mir.json / src.json of the current tree; the repository is never run.
 
@@ -18,7 +21,9 @@ Robustness: wherever a clause is about the *value* a small function denotes (T2 
 T5 UTF-8 assembly and the mouse table, T8 colour components) the function is evaluated as a whole by sa.consteval.StdInterp (T5-UTF8: on symbolic
 bytes, every result bit a constant or one input bit through sa.bitflow), so helper extraction, loop <-> iterator chain, if-chain <-> match, shifts <->
 divisions, clamp <-> min, named constants and renamed locals do not change the verdict; the older shape readers remain as fallback / diagnostics.
-T5-MOUSE-BITS follows the button value through plain copies and into crate-local helpers; T7 retries on the body with helpers inlined (prog.inlined)."""
+T5-MOUSE-BITS follows the button value through plain copies and into crate-local helpers; T7 retries on the body with helpers inlined (prog.inlined).
+T9 evaluates the decode functions as a whole (helpers, splitn / split_once-like position slicing / split_at, if <-> match, into_owned <-> to_string,
+from_utf8 on a borrowed or an owned buffer are all the same value); a decode that is not evaluable is a fail-closed anchor."""
 import json
 import os
 import re
@@ -26,7 +31,7 @@ import re
 from ..mir import call_matches
 from ..flow import expr, value_variants, arg_place
 from ..src import find_all, expr_text, lit_int
-from ..consteval import StdInterp, Frame, Unsupported, Panic, StructV, EnumV, NONE, some
+from ..consteval import StdInterp, Frame, Unsupported, Panic, StructV, EnumV, NONE, some, copyv, freeze, ClosureV, FnRef, LocalFn
 from .. import grammar, regex, bitflow as bf
 
 REFDIR = os.path.join(os.path.dirname(os.path.dirname(os.path.abspath(__file__))), "refs")
@@ -47,8 +52,14 @@ CLAIM = {
             "admit; (T6) in the tagged union of the as-built event grammars only key-table (legacy ESC-prefix) accepting states can be extended, so a complete "
             "parsed report is never merged with what follows; (T7) the cursor / mouse / DECRPM / text-area report grammars equal their documented forms, the "
             "payload slice is exactly the numbers, and the n-th number reaches the documented field (row before col, column;row for the mouse, height before "
-            "width, mode then status). NOT decided: value-level copying of numeric fields for every value (number_decode, the iterator plumbing, overflow), "
-            "the rest of the payloads of OSC colour / termcap / kitty image / device attribute / bracketed paste reports, wheel direction naming (library-defined), and the "
+            "width, mode then status); (T8) the `rgb:` component conversion of OSC colour reports; (T9-TEXT-SPAN) the free text an event carries - the message "
+            "of a kitty image response, the text of a bracketed paste - is the WHOLE transmitted span between the fixed delimiters (the first `;` after the "
+            "control part resp. `ESC[200~`, and the terminator): KittyImageMatcher::decode / BracketedPasteMatcher::decode are evaluated on sequences accepted "
+            "by their as-built grammars whose text holds every admissible ASCII byte alone and inside, each separator byte a decoder splits on (; , = :) 0, 1, "
+            "2 and 3 times at the start / inside / at the end / adjacent, text that looks like a control part, and multi-byte UTF-8; the text must equal the "
+            "span (kitty: no text exactly for `OK`), and id / placement must be the transmitted numbers whatever the text contains. NOT decided: value-level "
+            "copying of numeric fields for every value (number_decode, the iterator plumbing, overflow), texts that are not valid UTF-8, "
+            "the rest of the payloads of OSC colour / termcap / device attribute reports, wheel direction naming (library-defined), and the "
             "decoder loop that concatenates events (C03).",
     "technique": "folded key table and grammars (sa.grammar) against hand-written reference tables, MIR def-chasing (enum lists, discriminant comparison, order of "
                  "Iterator::next calls), bit provenance (sa.bitflow), exhaustive denotational evaluation of small source functions (sa.consteval), DFA queries "
@@ -1737,6 +1748,222 @@ def t8_color(ctx, it):
         ctx.violation("T8-COLOR-COMPONENT", "decoder::parse_color", "channel-order", "`rgb:12/345/6789` must decode to RGBA(0x12, 0x34, 0x67, 255) (red/green/blue in order, opaque); got %r" % (got,), sites=site)
 
 
+# =====================================================================================================================
+# T9  free text carried by an event = the whole span between the fixed delimiters
+# =====================================================================================================================
+_SEP_NAME = {0x3b: "semicolon", 0x2c: "comma", 0x3d: "equals", 0x3a: "colon"}
+
+
+class _MapV(dict):
+    """BTreeMap model: frozen key -> value"""
+
+
+class _TextIt(_It):
+    """+ struct-like enum variant literals (`TerminalEvent::KittyImage { id, .. }` -> StructV("TerminalEvent::KittyImage")), identity conversions
+    between owned and borrowed text / byte strings"""
+
+    def _e_struct(self, e, fr):
+        segs = [x for x in e["path"].split("::") if x]
+        if len(segs) >= 2 and segs[-1] not in self._structs:
+            ty = fr.self_ty if segs[-2] == "Self" else segs[-2]
+            if ty in self._enums and segs[-1] in self._enums[ty] and not e.get("rest"):
+                return StructV(ty + "::" + segs[-1], {f["name"]: self.eval(f["e"], fr) for f in e["fields"]})
+        return super()._e_struct(e, fr)
+
+    def _e_call(self, e, fr):
+        f = e["f"]
+        if f.get("k") == "path" and f["p"] not in self.extern_fns and f["p"] not in fr.vars:
+            q = re.sub(r"^(::)?(std|core|alloc)::(\w+::)*(?=\w+::\w+$)", "", f["p"])         # std::str::from_utf8 -> str::from_utf8
+            if q in self.extern_fns:
+                return self.extern_fns[q]([self.place(a, fr) for a in e.get("args") or []])
+        return super()._e_call(e, fr)
+
+    def _closure_call(self, f, args):
+        if isinstance(f, EnumV) and "%s::%s" % (f.ty, f.name) in self.extern_fns:          # `.map(TerminalEvent::Paste)`: a tuple variant used as a function
+            return self.extern_fns["%s::%s" % (f.ty, f.name)](list(args))
+        return super()._closure_call(f, args)
+
+    def std_method(self, recv, m, a):
+        if not a and isinstance(recv, (str, list, bytes)) and m in ("into", "into_owned", "to_vec", "into_boxed_str", "into_string", "as_slice"):
+            return copyv(recv) if m == "to_vec" else recv
+        if not a and isinstance(recv, str) and m in ("to_string", "to_owned", "as_str", "clone", "as_ref", "borrow"):
+            return recv                      # (`trim` is deliberately not an identity here)
+        if isinstance(recv, bool) and len(a) == 1 and m in ("then", "then_some"):
+            return NONE if not recv else some(self._closure_call(a[0], []) if m == "then" else a[0])
+        if isinstance(recv, (list, bytes)) and m in ("rsplitn", "rsplit") and len(a) == (2 if m == "rsplitn" else 1) and isinstance(a[-1], (ClosureV, FnRef, LocalFn)):
+            limit = a[0] if m == "rsplitn" else len(recv) + 2          # pieces from the back, the last one is the unsplit front
+            out, cur = [], []
+            for x in reversed(list(recv)):
+                if len(out) < limit - 1 and self._truth(a[-1], [x]):
+                    out.append(cur[::-1])
+                    cur = []
+                else:
+                    cur.append(x)
+            out.append(cur[::-1])
+            return out
+        return super().std_method(recv, m, a)
+
+
+def _text_interp(src):
+    it = _std_externs(_TextIt(src))
+
+    def lossy(a):
+        return bytes(a[0]).decode("utf-8", "replace")
+
+    def strict(a):
+        try:
+            return ("Ok", bytes(a[0]).decode("utf-8"))
+        except (UnicodeDecodeError, ValueError, TypeError):
+            return ("Err", "Utf8Error")
+    for pth in ("String::from_utf8_lossy",):
+        it.extern_fns[pth] = lossy
+    for pth in ("String::from_utf8", "str::from_utf8"):
+        it.extern_fns[pth] = strict
+    it.extern_fns["String::from"] = lambda a: a[0] if isinstance(a[0], str) else _unsup("String::from of %r" % (a[0],))
+    it.extern_fns["Vec::from"] = lambda a: list(a[0]) if isinstance(a[0], (list, bytes)) else _unsup("Vec::from of %r" % (a[0],))
+    it.extern_fns["char::from"] = lambda a: ("char", a[0])
+    it.extern_fns["TerminalEvent::Paste"] = lambda a: ("TerminalEvent::Paste", a[0])
+    it.extern_fns["TerminalEvent::Termcap"] = lambda a: ("TerminalEvent::Termcap", a[0])
+    it.extern_fns["BTreeMap::new"] = lambda a: _MapV()
+
+    def insert(recv, args):
+        if not isinstance(recv, _MapV):
+            _unsup("insert on %s" % type(recv).__name__)
+        k = freeze(args[0])
+        old = recv.get(k)
+        recv[k] = args[1]
+        return NONE if old is None else some(old)
+    it.extern_methods["insert"] = insert
+    return it
+
+
+def _text_corpus(admit):
+    """texts (bytes) grouped by the byte class they exercise; `admit` = the bytes the grammar admits inside the text.
+    Every separator byte a decoder may split on occurs 0, 1, 2 and 3 times, at the start, inside, at the end and adjacent."""
+    ascii_ok = [b for b in sorted(admit) if b < 0x80]
+    groups = [("empty / OK / no separator", [b"", b"OK", b"x", b"ENOENT no such image", b"OKAY", b"NOK", b"ok"])]
+    groups.append(("each admissible ASCII byte alone", [bytes([b]) for b in ascii_ok]))
+    groups.append(("each admissible ASCII byte inside", [b"a" + bytes([b]) + b"z" for b in ascii_ok]))
+    for sb in sorted(_SEP_NAME):
+        if sb not in admit:
+            continue
+        s1 = bytes([sb])
+        ts = []
+        for n in (1, 2, 3):
+            ts += [b"e" + (s1 + b"m") * n, s1 * n, s1 * n + b"t", b"t" + s1 * n, b"OK" + s1 * n, (s1 + b"OK") * n, b"OK" + (s1 + b"OK") * n]
+        groups.append(("separator %s 1, 2 and 3 times" % _SEP_NAME[sb], ts))
+    mixed = [b"EBADF: bad fd; key=value, retry", b"i=1,p=2;OK", b"x,i=9", b"x,p=9;i=9", b"a=b=c", b"k=v;k=v;k=v", b"1;2;3", b"::;;,,==", b"=;=,", b"OK;i=5,p=6"]
+    groups.append(("separators mixed / text that looks like a control part", [t for t in mixed if all(c in admit for c in t)]))
+    utf = [u"é".encode("utf-8"), u"€".encode("utf-8"), u"\U0001d11e".encode("utf-8"), u"a;é=€,\U0001d11e:z".encode("utf-8"), u"é;é;é".encode("utf-8")]
+    groups.append(("multi-byte UTF-8 text", [t for t in utf if all(c in admit for c in t)]))
+    return groups
+
+
+def _span_shape(got, want):
+    """name of the way `got` differs from the transmitted span `want` (both bytes)"""
+    if got is None:
+        return "reported-without-text"
+    if len(got) < len(want) and want.startswith(got) and want[len(got)] in _SEP_NAME:
+        return "cut-at-" + _SEP_NAME[want[len(got)]]
+    if len(got) < len(want) and want.endswith(got) and want[len(want) - len(got) - 1] in _SEP_NAME:
+        return "head-dropped-at-" + _SEP_NAME[want[len(want) - len(got) - 1]]
+    for sb, nm in sorted(_SEP_NAME.items()):
+        if got == want.replace(bytes([sb]), b""):
+            return "drops-" + nm
+    return "text-differs"
+
+
+def t9_text(ctx):
+    """KittyImageMatcher / BracketedPasteMatcher::decode evaluated as a whole (sa.consteval) on sequences the as-built grammar accepts:
+    the text field of the event is the entire span between the fixed introducer / first control terminator and the final delimiter."""
+    src = ctx.src
+    ctx.rule("T9-TEXT-SPAN", "free text carried by an event (kitty image response message, bracketed paste) is the WHOLE transmitted span between the fixed "
+                             "delimiters: decode evaluated on grammar-accepted sequences whose text holds every admissible ASCII byte and each separator byte "
+                             "(; , = :) 0, 1, 2 and 3 times; kitty id / placement are the transmitted numbers whatever the text contains", floor=18)
+    gs = grammar.extract(src)
+    it = _text_interp(src)
+    specs = [
+        # matcher, prefixes (bytes before the text, with what they denote), suffix, extraction
+        ("KittyImageMatcher", [(b"\x1b_Gi=7;", {"id": 7, "placement": NONE}), (b"\x1b_Gi=7,p=2;", {"id": 7, "placement": some(2)}),
+                               (b"\x1b_Ga=q,i=31,p=4;", {"id": 31, "placement": some(4)})], b"\x1b\\"),
+        ("BracketedPasteMatcher", [(b"\x1b[200~", {})], b"\x1b[201~"),
+    ]
+    for name, prefixes, suffix in specs:
+        where = "decoder::%s::decode" % name
+        g = gs.get(name)
+        fn = src.fn("decode", impl_self="^%s$" % name)
+        if g is None or g.rx is None or fn is None:
+            ctx.anchor("T9-TEXT-SPAN", where, "%s: %s" % (name, "decode not found" if fn is None else "grammar not folded (%s)" % (g.problem if g else "missing")))
+            continue
+        site = ["%s:%d" % (DEC, fn[1]["line"])]
+        d = g.asbuilt_dfa
+        admit = {b for b in range(256) if regex.accepts(d, prefixes[0][0] + b"a" + bytes([b]) + b"z" + suffix)}
+        if not all(regex.accepts(d, p + suffix) or regex.accepts(d, p + b"x" + suffix) for p, _ in prefixes) or not admit:
+            ctx.anchor("T9-TEXT-SPAN", where + "/form", "the grammar of %s no longer has the form <introducer> text <terminator> the rule builds its inputs from" % name)
+            continue
+        seen = set()
+        for gi, (label, texts) in enumerate(_text_corpus(admit)):
+            n_eval, bad = 0, None
+            for ti, text in enumerate(texts):
+                for pi, (prefix, fields) in enumerate(prefixes):
+                    if pi and (ti + pi) % len(prefixes) and len(texts) > 12:
+                        continue                      # the large per-byte groups rotate through the control parts
+                    data = prefix + text + suffix
+                    if not regex.accepts(d, data):
+                        continue
+                    try:
+                        ev = it.call_item(fn[1], name, [None, list(data)], DEC, memo=False)
+                    except Panic as ex:
+                        ev = "panic (%s)" % ex
+                    except (Unsupported, TypeError, KeyError, IndexError, AttributeError, ValueError) as ex:
+                        ctx.anchor("T9-TEXT-SPAN", where + "/eval", "%s::decode is not evaluable on `%s`: %s: %s" % (name, _bt(data), type(ex).__name__, ex))
+                        bad = "anchor"
+                        break
+                    n_eval += 1
+                    want = text.decode("utf-8")
+                    got, others = _t9_event_text(name, ev)
+                    problems = []
+                    if name == "KittyImageMatcher":
+                        ok_text = (got is None and text == b"OK") if (got is None or text == b"OK") else got == want
+                        for fname, fv in fields.items():
+                            if others is not None and others.get(fname) != fv:
+                                problems.append((fname, "`%s` carries %s %r but decodes with %s = %r" % (_bt(data), fname, fv, fname, others.get(fname))))
+                    else:
+                        ok_text = got == want
+                    if others is None:
+                        problems.append(("rejected", "`%s` is a complete %s sequence but decodes to %r" % (_bt(data), name[:-7], ev)))
+                    elif not ok_text:
+                        shape = _span_shape(None if got is None else got.encode("utf-8"), text)
+                        problems.append((shape, "`%s` transmits the text `%s` but the event carries %s: the text of the event must be the whole span between `%s` and `%s`" % (
+                            _bt(data), _bt(text), "no text" if got is None else "`%s`" % _bt(got.encode("utf-8")), _bt(prefix), _bt(suffix))))
+                    for shape, msg in problems:
+                        bad = bad or msg
+                        if shape not in seen:
+                            seen.add(shape)
+                            ctx.violation("T9-TEXT-SPAN", where, shape, msg, sites=site)
+                if bad == "anchor":
+                    break
+            if bad == "anchor":
+                break
+            ctx.instance("T9-TEXT-SPAN", {"fn": where, "texts": label, "sequences_evaluated": n_eval, "first_mismatch": bad, "ok": bad is None})
+
+
+def _t9_event_text(name, ev):
+    """(text carried by the event | None, other fields | None when the value is not the expected event)"""
+    if name == "KittyImageMatcher":
+        if isinstance(ev, tuple) and len(ev) == 2 and ev[0] == "Some" and isinstance(ev[1], StructV) and ev[1].ty == "TerminalEvent::KittyImage":
+            f = ev[1].fields
+            err = f.get("error")
+            if err == NONE:
+                return None, f
+            if isinstance(err, tuple) and len(err) == 2 and err[0] == "Some" and isinstance(err[1], str):
+                return err[1], f
+        return None, None
+    if isinstance(ev, tuple) and len(ev) == 2 and ev[0] == "Some" and isinstance(ev[1], tuple) and len(ev[1]) == 2 and ev[1][0] == "TerminalEvent::Paste" and isinstance(ev[1][1], str):
+        return ev[1][1], {}
+    return None, None
+
+
 def run(ctx):
     ctx.explanation = (
         "Decided (tables and layouts, each row / bit / state enumerated): T1 the folded key table of basic_events_nfa is a function and agrees with the "
@@ -1746,9 +1973,11 @@ def run(ctx):
         "field; T5 SGR mouse bit layout (provenance + complete enumeration over the used bits x M/m) and UTF-8 bit assembly vs RFC 3629; T6 only "
         "key-table states of the tagged union automaton are extendable (a complete parsed report is never merged with what follows); T7 the four numeric "
         "report grammars equal their documented forms and the n-th payload number reaches the documented field; T8 the `rgb:` colour component conversion "
-        "of OSC colour reports (all 1-3 digit values, all high bytes of 4-digit values). NOT decided: that numeric field values "
+        "of OSC colour reports (all 1-3 digit values, all high bytes of 4-digit values); T9 the free text of a kitty image response / bracketed paste is the "
+        "whole span between the fixed delimiters (decode evaluated on grammar-accepted sequences: every admissible ASCII byte, the separator bytes ; , = : "
+        "0-3 times, control-part look-alikes, multi-byte UTF-8), kitty id / placement unaffected by the text. NOT decided: that numeric field values "
         "are copied unchanged for every value (number_decode, iterator plumbing and overflow behaviour are value-level: C02 covers their safety), "
-        "the rest of the payloads of OSC colour / termcap / kitty image / device attribute / bracketed paste reports, and the decoder loop itself (C03).")
+        "texts that are not valid UTF-8, the rest of the payloads of OSC colour / termcap / device attribute reports, and the decoder loop itself (C03).")
     ctx.assume("a reference row constrains only byte strings / codes the repository also maps; the wheel direction names are the library's own (its test pins 65 -> MouseWheelUp)")
     ctx.trust("numbers_decode-model", "the evaluations model numbers_decode as: split at the separator, keep the pieces that are decimal numbers, in order, and number_decode as the decimal value of an all-digit string (C02 checks number_decode itself)")
     ctx.trust("sa/grammar.py fold", "the key table and grammars are the denotation of decoder.rs computed by sa.grammar (validated by C15's rules)")
@@ -1760,7 +1989,7 @@ def run(ctx):
         ctx.anchor("T1-KEYMOD", "keys::KeyMod/constants", "KeyMod's constants not evaluable: %s" % ex)
         consts = {}
     parts = [("T1", lambda: t1(ctx, it, consts)), ("T2", lambda: t2(ctx, it)), ("T3", lambda: t3(ctx, it)), ("T4", lambda: t4(ctx, it, consts)),
-             ("T5-MOUSE", lambda: t5_mouse(ctx, it, consts)), ("T5-UTF8", lambda: t5_utf8(ctx)), ("T6", lambda: t6(ctx)), ("T7", lambda: t7(ctx)), ("T8", lambda: t8_color(ctx, it))]
+             ("T5-MOUSE", lambda: t5_mouse(ctx, it, consts)), ("T5-UTF8", lambda: t5_utf8(ctx)), ("T6", lambda: t6(ctx)), ("T7", lambda: t7(ctx)), ("T8", lambda: t8_color(ctx, it)), ("T9", lambda: t9_text(ctx))]
     for name, fn in parts:
         try:
             fn()
@@ -1771,5 +2000,6 @@ def run(ctx):
     ctx.exhaustive = {
         "T1 key table rows": True, "T2 enumerators": True, "T3 SGR codes 0..255 and palette indices 0..255": True, "T4 private-use block": True,
         "T5 mouse button-value bits x final byte": True, "T6 accepting states of the union automaton": True,
+        "T9 admissible ASCII bytes of the text (alone and inside) and separator multiplicities 0..3": True, "T9 all texts": False,
         "numeric field values": False,
     }
